@@ -1,6 +1,7 @@
 """C01 — every accepted schema yields Rust that compiles; supported schemas are never rejected.
 Space: (a) depth-2 space and pairs under the settings product builder x map type x derives; (b) name-collision family
-(prelude names, names typify invents); (c) C06's default family; (d) n=1 recursion graphs; (e) every case's definitions
+(prelude names, names typify invents); (c) C06's default family; (d) n=1 recursion graphs; (g) the repository's own fixture schemas (typify/tests/schemas) under the
+settings product and through the definitions-map route; (e) every case's definitions
 ingested through three batchings (history family); (f) root-level shapes (context 'root').
 Obs: per-op status, to_stream() returns, syn parses a File, `cargo check` of the module with error attribution.
 Oracle: ingest Ok => no panic, parses, zero rustc errors; and (every member is inside the supported fragment) ingest Ok."""
@@ -8,7 +9,9 @@ import copy
 import json
 
 from .. import wire
-from ..common import MachineryError
+import os
+
+from ..common import REPO, MachineryError
 from ..menus import shapes
 from ..runner import Result, Violation
 
@@ -107,6 +110,24 @@ def cases(tier, seed):
         for p in base[::3]:
             for h in history_variants(p):
                 out.append(dict(h, settings=S_BUILDER, family="history"))
+    # the repository's own fixture schemas under every settings assignment and through the definitions-map route
+    fx_dir = os.path.join(REPO, "typify", "tests", "schemas")
+    for fn in sorted(os.listdir(fx_dir)) if os.path.isdir(fx_dir) else []:
+        if not fn.endswith(".json"):
+            continue
+        try:
+            doc = json.load(open(os.path.join(fx_dir, fn)))
+        except Exception:
+            continue
+        if fn == "type-with-modified-generation.json":
+            continue   # only convertible under the repository harness's own replace/convert settings (it contains the unsupported mixed enum)
+        sets = S_PRODUCT if tier != "quick" else (S_DEFAULT, S_BUILDER)
+        for i, st in enumerate(sets):
+            out.append({"id": "fixture:%s#s%d" % (fn, i), "doc": doc, "target": None, "settings": st, "family": "fixture", "shape": "fixture:" + fn, "ctx": "file"})
+        defs = doc.get("definitions") or doc.get("$defs")
+        if isinstance(defs, dict) and defs:
+            out.append({"id": "fixture:%s~refs" % fn, "doc": doc, "target": None, "settings": S_BUILDER, "family": "fixture", "shape": "fixture:" + fn, "ctx": "file",
+                        "ops": [{"refs": defs}]})
     # C06's default family and n=1 recursion graphs
     from . import C06, C07
     for c in C06.cases(tier, seed):
